@@ -1,3 +1,4 @@
+import common
 """Failing-input searches for the geometric properties C03, C04, C07, C11, C13, C14 on the real code, judged by geo_oracle."""
 import math
 import geo_oracle as G
@@ -67,6 +68,7 @@ def ring_area_precise(ring):
 def segs_for_area(r):
     return 64 if r <= 3 else 16 if r <= 16 else 4
 
+@common.guarded(lambda **a: f"area check of cell {hex(a['c'])}", lambda **a: {'kind': 'area', 'cell': a['c']})
 def check_area(a5, c, fails, st):
     r = ref_res(c)
     n = segs_for_area(r)
@@ -89,6 +91,7 @@ def check_area(a5, c, fails, st):
         fails.append(Failure(f'area of cell {hex(c)} (resolution {r}) = {got:.12e} sr, expected {want:.12e} (relative error {rel:.2e})', {'cell': c}))
 
 # ---------------------------------------------------------------------------------------- C11
+@common.guarded(lambda **a: f"shape check of cell {hex(a['c'])}", lambda **a: {'kind': 'shape', 'cell': a['c']})
 def check_shape(a5, c, fails, st):
     r = ref_res(c)
     if r < 2:
@@ -118,6 +121,7 @@ def check_quantisation(a5, p, r, fails, st):
         fails.append(Failure(f'centre of the cell of {p} at resolution {r} is {d:.3f} cell widths away (> 1.0)', {'kind': 'quant', 'p': list(p), 'r': r}))
 
 # ---------------------------------------------------------------------------------------- C07
+@common.guarded(lambda **a: f"descent from cell {hex(a['c'])}", lambda **a: {'kind': 'descent', 'cell': a['c']})
 def check_descent(a5, c, depth, rng, fails, st):
     r = ref_res(c)
     cen = vec_ll(a5.cell_to_lonlat(c))
@@ -153,6 +157,7 @@ def check_nesting(a5, fails):
         if corner_hits != 10:
             fails.append(Failure(f'segments of face {hex(f)} do not share the face corners exactly ({corner_hits} of 10 corner coincidences)', {'kind': 'nest', 'cell': f}))
 
+@common.guarded(lambda **a: f"ancestors of the resolution-{a['r']} cell of point {a['p']}", lambda **a: {'kind': 'anc', 'p': list(a['p']), 'r': a['r'], 'r2': a['r2']})
 def check_ancestor_of_point(a5, p, r, r2, fails):
     c = a5.lonlat_to_cell(p, r)
     anc = a5.cell_to_parent(c, r2)
@@ -194,6 +199,7 @@ def manifold_certificate(a5, r, fails):
         fails.append(Failure(f'resolution {r}: signed corner-polygon areas sum to {total:.6f}, not 4 pi', {'kind': 'manifold', 'r': r}))
     return len(cells)
 
+@common.guarded(lambda **a: f"edges of cell {hex(a['c'])}", lambda **a: {'kind': 'edge', 'cell': a['c']})
 def check_edges_of_cell(a5, c, fails):
     """all five edges of a cell: the cell found just beyond the (true, curved) edge midpoint owns the reversed edge"""
     r = ref_res(c)
@@ -245,6 +251,7 @@ def lib(drv):
     from a5.core.origin import origins, find_nearest_origin
     return _dodecahedron, to_cartesian, to_spherical, origins, find_nearest_origin
 
+@common.guarded(lambda **a: f"projection round trip of {a['sph']} on face {a['origin_id']}", lambda **a: {'kind': 'sph', 'sph': list(a['sph']), 'o': a['origin_id']})
 def check_projection_roundtrip(drv, sph, origin_id, fails, st, kind='nearest'):
     dod, to_cart, to_sph, origins, _ = lib(drv)
     try:
@@ -257,6 +264,7 @@ def check_projection_roundtrip(drv, sph, origin_id, fails, st, kind='nearest'):
     if not d <= 1e-11:
         fails.append(Failure(f'forward then inverse on face {origin_id} ({kind}) moves the point {sph} by {d:.3e} rad (> 1e-11)', {'kind': 'sph', 'sph': list(sph), 'o': origin_id}))
 
+@common.guarded(lambda **a: f"face round trip of {a['face']} on face {a['origin_id']}", lambda **a: {'kind': 'face', 'face': list(a['face']), 'o': a['origin_id']})
 def check_face_roundtrip(drv, face, origin_id, fails, st):
     dod, to_cart, to_sph, origins, _ = lib(drv)
     try:
@@ -293,6 +301,7 @@ def area_constant(drv):
         FACE_PENTAGON_AREA = 5 * distance_to_edge ** 2 * math.tan(math.pi / 5)
     return (4 * math.pi / 12) / FACE_PENTAGON_AREA
 
+@common.guarded(lambda **a: f"area of a face polygon on face {a['origin_id']}", lambda **a: {'kind': 'area', 'poly': [list(p) for p in a['poly']], 'o': a['origin_id']})
 def check_area_preservation(drv, poly, origin_id, fails, st, seg=512):
     dod, to_cart, to_sph, origins, _ = lib(drv)
     pa = planar_area(poly)
